@@ -448,7 +448,7 @@ class Rendering:
             return self.num(q_bare(si_value, enclosing, dim3))
         own = self.sys_draw(self.r) if self.same is None else self.same
         num = q_bare(si_value, own, dim3)
-        ustr = si.unit_string(own, dim3, style=self.r.choice([0, 1, 2, 3]))
+        ustr = si.unit_string(own, dim3, style=self.r.choice([0, 1, 2, 3, 0, 1, 2, 3, 4, 5]))
         if form == "str":
             return "%r %s" % (num, ustr)
         from strengths.units import UnitValue
@@ -466,7 +466,13 @@ class Rendering:
                 else:
                     out[k] = self.q(v[k], dim3, enclosing)
                     written[v[k]] = out[k]
-            return self.keep(_join_env_keys(self.r, v, out))
+            out = _join_env_keys(self.r, v, out)
+            if self.r.random() < 0.12:
+                # an entry for an environment this network does not list (a species or reaction object shared with a model that
+                # has more compartments): legal, and without effect here
+                out[self.r.choice(["ghost_env", "nucleus_of_another_model"])] = self.q(self.r.choice([1.0, 2.5, 0.0]), dim3, enclosing)
+                self.log["entries_for_unlisted_environments"] = self.log.get("entries_for_unlisted_environments", 0) + 1
+            return self.keep(out)
         return self.q(v, dim3, enclosing)
 
     def seq(self, values, integer=False):
@@ -720,7 +726,7 @@ def _q_json(rd, si_value, dim3, enclosing):
     if form == "bare":
         return q_bare(si_value, enclosing, dim3)
     own = rd.sys_draw(rd.r) if rd.same is None else rd.same
-    return "%r %s" % (q_bare(si_value, own, dim3), si.unit_string(own, dim3, style=rd.r.choice([0, 1, 2, 3])))
+    return "%r %s" % (q_bare(si_value, own, dim3), si.unit_string(own, dim3, style=rd.r.choice([0, 1, 2, 3, 0, 1, 2, 3, 4, 5])))
 
 
 def _per_env_json(rd, v, dim3, enclosing):
